@@ -490,4 +490,28 @@ example : (match (step {} demoHD03 (run {} demoHD03 [.create [0], .newAccountWO 
       .next (49, 0) 1 1 true 1, .rename (49, 0) 1 3, .restart]).1 (.next (49, 0) 1 1 true 2)).2.1 with
       | .addrs [i] => i.typ == 3 && i.index == 1 && i.internal | _ => false) = true := by decide
 
+/-- what `DerivationInfo()` reports for an address issued from an account imported with master key fingerprint 7
+    (model of the official tree): the fingerprint, account child number, branch and index reported at issue time are
+    reported again after `MarkUsed` dropped the cached object and after a restart (the object is rebuilt from its row by
+    `chainAddressRowToManaged`, which takes the fingerprint from the account row).  Go oracle:
+    `derivationInfo.fingerprint-differs-after-reload` / `C08 key=Address.restart.derivation-info-differs`. -/
+example : (match (step {} demoHD03 (run {} demoHD03 [.create [0], .newAccountWO (84, 0) 2 [7] (1 + H) 7 none,
+      .next (84, 0) 1 1 false 1]).1 (.info 1)).2.1 with
+      | .addr i => i.fp == 7 && i.acct == 1 && i.acctChild == 1 + H && i.branch == 0 && i.index == 0 | _ => false) = true := by decide
+example : (match (step {} demoHD03 (run {} demoHD03 [.create [0], .newAccountWO (84, 0) 2 [7] (1 + H) 7 none,
+      .next (84, 0) 1 1 false 1, .markUsed (84, 0) (.key (.hd [7, 0, 0]) 0 true) "x"]).1
+        (.lookup (84, 0) (.key (.hd [7, 0, 0]) 0 true) 5)).2.1 with
+      | .addr i => i.fp == 7 && i.acct == 1 && i.acctChild == 1 + H && i.branch == 0 && i.index == 0 | _ => false) = true := by decide
+example : (match (step {} demoHD03 (run {} demoHD03 [.create [0], .newAccountWO (84, 0) 2 [7] (1 + H) 7 none,
+      .next (84, 0) 1 1 false 1, .restart]).1 (.lookup (84, 0) (.key (.hd [7, 0, 0]) 0 true) 5)).2.1 with
+      | .addr i => i.fp == 7 && i.acct == 1 && i.acctChild == 1 + H && i.branch == 0 && i.index == 0 | _ => false) = true := by decide
+/-- … whereas an address made by `extendAddresses` (observation 5 of notes/C03.md, the official tree's behaviour, modelled as
+    it is): its cached object reports fingerprint 0, the object rebuilt after a restart reports 7 -/
+example : (match (step {} demoHD03 (run {} demoHD03 [.create [0], .newAccountWO (84, 0) 2 [7] (1 + H) 7 none,
+      .extend (84, 0) 1 0 false]).1 (.lookup (84, 0) (.key (.hd [7, 0, 0]) 0 true) 5)).2.1 with
+      | .addr i => i.fp == 0 | _ => false) = true := by decide
+example : (match (step {} demoHD03 (run {} demoHD03 [.create [0], .newAccountWO (84, 0) 2 [7] (1 + H) 7 none,
+      .extend (84, 0) 1 0 false, .restart]).1 (.lookup (84, 0) (.key (.hd [7, 0, 0]) 0 true) 5)).2.1 with
+      | .addr i => i.fp == 7 | _ => false) = true := by decide
+
 end AddrDerive
